@@ -102,7 +102,7 @@ def run(ck, prog, tier, load):
         bl = base_local(parse, t["args"][0])
         if bl is not None and bl in re_locals:
             pushes.append((bb, t))
-    ck.anchor("C10-b", len(pushes), 4, "re.push_str(..) in ResourceDef::parse")
+    ck.anchor("C10-b", len(pushes), 2, "re.push_str(..) in ResourceDef::parse")
     for i, (bb, t) in enumerate(pushes):
         arg = parse.op_expr(t["args"][1])
         if arg[0] == "const" or (e_consts(arg) and not [r for r in e_roots(arg) if r[0] in ("arg", "var", "phi", "call")]):
